@@ -105,7 +105,7 @@ def run(cfg, logdir, timeout=90):
     if result['end'].startswith('raised_other_') and not events[:-1] and not delivered:
         result['end'] = 'refused'      # the back end could not even start (pickling)
     rec = {k: cfg[k] for k in ('api', 'n', 'buf', 'w', 'fn_fail', 'fail_kind', 'cfe', 'stop', 'stop_k')}
-    rec.update({'shape': 'range', 'seq': []})
+    rec.update({'shape': 'range', 'seq': [], 'seq_out': 'returned'})
     rec.update({'kind': 'ds', 'events': events, 'delivered': delivered,
                 'end': 'deadlock' if hung else result['end'], 'alive': alive,
                 'deadlock': bool(hung), 'len_ok': bool(result['len_ok']),
